@@ -775,7 +775,7 @@ mod verif_in_context {
     }
 
     async fn outer_ack(tx: &mut TxPacketStream<VecTx>, id: u16) -> Result<(), MqttError> {
-        Box::pin(CtxV::ack::<PubcompReason>(tx, nz16(id))).await?;
+        CtxV::ack::<PubcompReason>(tx, nz16(id)).await?;
         Ok(())
     }
     pub(crate) async fn write_stub<T: AsyncWrite + Unpin>(_this: &mut TxPacketStream<T>, packet: &[u8]) -> Result<(), std::io::Error> {
@@ -960,5 +960,28 @@ mod verif_in_context {
         core::mem::forget(ctx);
         core::mem::forget(sender);
         core::mem::forget(rcv0);
+    }
+
+    //@ h name=probe_ack_nested_stub props=C08 tier=off cap=small to=900 mem=20
+    //@ claim: experiment
+    #[kani::proof]
+    #[kani::unwind(8)]
+    #[kani::stub(crate::codec::ack::AckTxBuilder::build, crate::codec::ack::verif_in_ack::build_stub)]
+    #[kani::stub(crate::codec::ack::AckTx::property_len, crate::codec::ack::verif_in_ack::property_len_stub)]
+    #[kani::stub(crate::codec::ack::AckTx::remaining_len, crate::codec::ack::verif_in_ack::remaining_len_stub)]
+    pub(crate) fn probe_ack_nested_stub() {
+        let mut cx = task_cx();
+        let mut tx = TxPacketStream::from(VecTx::new());
+        let id: u16 = kani::any();
+        kani::assume(id != 0);
+        {
+            let mut f = core::pin::pin!(outer_ack(&mut tx, id));
+            match core::future::Future::poll(f.as_mut(), &mut cx) {
+                core::task::Poll::Ready(Ok(())) => {}
+                _ => panic!("step must complete"),
+            }
+        }
+        assert!(out_n() == 4 && out(0) == 0x70 && out(1) == 2 && out(2) == (id >> 8) as u8 && out(3) == id as u8, "PUBCOMP with the PUBREL's identifier");
+        kani::cover!(id == 0x0100, "id 256");
     }
 }
